@@ -515,6 +515,39 @@ def run_twosheet_fill(shape, fill, ctx, only=None):
             rec.fail(key, tags, inputs, obs_of(want), got, True)
 
 
+# ---------------------------------------------------------------- spellings
+def run_spellings(ctx):
+    """A rectangle is the same rectangle when its corners are written in lower
+    or mixed case, with or without dollar signs (each formula in a model of
+    its own: no other formula names the rectangle)."""
+    grid = ((1, 5), (2, None), (3, 'x'))
+    cells = {}
+    for i, row in enumerate(grid):
+        for j, v in enumerate(row):
+            if v is not None:
+                cells['Sheet1!' + addr(i, j)] = v
+    a, b = addr(0, 0), addr(len(grid) - 1, 1)
+    spellings = ('%s:%s' % (a.lower(), b.lower()),
+                 '%s:%s' % (a.lower(), b),
+                 '$%s$%s:$%s$%s' % (a[0].lower(), a[1:], b[0].lower(), b[1:]),
+                 'Sheet1!%s:%s' % (a.lower(), b.lower()))
+    for sp in spellings:
+        for fn in FNS:
+            try:
+                want = ref.aggregate(fn, [('range', grid)])
+            except ref.Unjudged:
+                continue
+            got = lib.eval_formula('=%s(%s)' % (fn, sp), cells,
+                                   'Sheet1!%s1' % PROBE_COL)
+            key = 'C14/spelling/%s(%s)' % (fn, sp)
+            if agrees(fn, want, got):
+                ctx.ok(key, got, True)
+            else:
+                ctx.fail(key, sorted({'family:spelling', 'fn:' + fn,
+                                      'ref:lower-case'}),
+                         {'family': 'spellings'}, obs_of(want), got, True)
+
+
 # ---------------------------------------------------------------- after a change
 def run_change(ctx):
     """"The addressed values" are the values the cells hold NOW: after a cell
@@ -538,7 +571,7 @@ def run_change(ctx):
     cells[probes['SUMPRODUCT']] = '=SUMPRODUCT(%s,%s)' % (ra, rb)
     for i in range(nr):
         for j in range(nc):
-            for newv in (-4, None, 'x'):
+            for newv in (-4, None, 'x', 0, 0.0):
                 for how in ('evaluator', 'model', 'second-evaluator'):
                     model = lib.compile_dict(cells)
                     ev = lib.Evaluator(model)
@@ -693,7 +726,8 @@ def ncells(kind, shapes):
 
 
 def plan(tier):
-    shards = [{'kind': 'change'}, {'kind': 'members'}]
+    shards = [{'kind': 'change'}, {'kind': 'members'},
+              {'kind': 'spellings'}]
     for kind, shapes, alpha, vset, chunk in families(tier):
         total = len(alpha) ** ncells(kind, shapes)
         for lo in range(0, total, chunk):
@@ -719,6 +753,9 @@ def run_shard(shard, ctx):
         ctx.sample({'family': 'formula members',
                     'cells': {'A1': '=COUNT(K1:K3)', 'B1': '=1+1',
                               'Z1': '=SUM(A1:B1)'}})
+        return
+    if kind == 'spellings':
+        run_spellings(ctx)
         return
     if kind == 'change':
         run_change(ctx)
@@ -755,6 +792,9 @@ def run_shard(shard, ctx):
 def replay(inputs, ctx):
     if inputs['family'] == 'change':
         run_change(ctx)
+        return
+    if inputs['family'] == 'spellings':
+        run_spellings(ctx)
         return
     if inputs['family'] == 'members':
         run_members(ctx)
